@@ -22,6 +22,8 @@ fn raw_corpus() -> Vec<(&'static str, String)> {
         ("params", "pragma circom 2.0.0;\nfunction F(k, r, unused) {\n    k = r + 1;\n    return r;\n}\ntemplate P(n, m, spare) {\n    signal input in;\n    signal output out;\n    n = 0;\n    var t = m;\n    t = t + 1;\n    out <== in * m;\n}\n".to_string()),
         // A file without any token: with a decoration it is a comment-only file.
         ("empty", "\n".to_string()),
+        // Duplicate definitions (library mode) whose headers are not `keyword name(`.
+        ("dups", "pragma circom 2.1.0;\ntemplate Add() {\n    signal input a;\n    signal output b;\n    b <== a;\n}\ntemplate parallel Mul() {\n    signal input a;\n    signal output b;\n    b <== a * a;\n}\nfunction sq(x) {\n    return x * x;\n}\ntemplate   Add() {\n    signal input a;\n    signal output b;\n    b <== a + 1;\n}\ntemplate parallel Mul() {\n    signal input a;\n    signal output b;\n    b <== a;\n}\nfunction\n    sq(x) {\n    return x;\n}\n".to_string()),
         ("errors", super::c03::CORPUS[3].1.to_string()),
         ("parse-error", "pragma circom 2.0.0;\ntemplate P() {\n    signal input in;\n    signal output out;\n    out <== in +;\n}\n".to_string()),
         ("bad-sugar", "pragma circom 2.1.0;\ntemplate Q() {\n    signal input in;\n    signal output out;\n    (out, in) <== (1, 2, 3);\n}\nfunction G(a) {\n    var (p, q) = (a, a);\n    return p;\n}\n".to_string()),
